@@ -624,6 +624,14 @@ func (g *Gen) bigFrozenCase(mode int) {
 		if len(tags) > 0 {
 			doc.Fields = append(doc.Fields, FieldSpec{Kind: "fld", Name: "tag", Typ: 't', Len: len(tags), DV: d%4 == 0, Toks: tags})
 		}
+		// a doc-value field whose chunks do not compress: one pseudo-random term per document
+		ut := rndBytes(g.r.Intn(1<<30), 12)
+		for k := range ut {
+			if ut[k] == 0xff {
+				ut[k] = 0xfe
+			}
+		}
+		doc.Fields = append(doc.Fields, FieldSpec{Kind: "fld", Name: "uniq", Typ: 't', Len: 1, DV: true, Toks: []TokSpec{{Term: ut, Freq: 1}}})
 		b.Docs = append(b.Docs, doc)
 	}
 	g.emitBatch(b)
@@ -665,9 +673,9 @@ func (g *Gen) bigFrozenCase(mode int) {
 	st := g.fresh("st")
 	st2 := g.fresh("st")
 	for _, d := range []int{0, 1, 1023, 1024, 1025, nd - 1, 512, 1030, 3} {
-		g.emit("q dv %s %s fields=body,_id,tag doc=%d", o, st, d)
+		g.emit("q dv %s %s fields=body,_id,tag,uniq doc=%d", o, st, d)
 		// a second private state, always in another chunk than the first
-		g.emit("q dv %s %s fields=body,_id,tag doc=%d", o, st2, (d+1050)%nd)
+		g.emit("q dv %s %s fields=body,_id,tag,uniq doc=%d", o, st2, (d+1050)%nd)
 		g.emit("q stored %s %d stop=*", o, d)
 		g.emit("q docid %s %d", o, d)
 	}
